@@ -6,6 +6,11 @@ BASE = json.load(open("/root/.vp/BASELINE.json"))["cmd"] if os.path.exists("/roo
     "cd /repo && /venv/bin/python -m pytest -ra -q -p no:cacheprovider --timeout=900 --continue-on-collection-errors"
 
 CLAIMED = {
+ "C17": dict(
+    technique="static analysis: clang AST + case-based abstract execution of each wrapper (type arm x flags x zero/positive dimensions), polynomial comparison of rejecting guards with reference BLAS footprints, sibling-arm isomorphism, parse-table/signature/default agreement",
+    text="Static, exhaustive over the 34 wrappers of blas.c and all their cases: real/complex arms argument-wise identical up to precision; keyword list, parse format, address arguments and C types agree, naming convention, manual signature prefix, documented defaults equal C initialisers / default statements; early return only where the reference operation leaves the output untouched; for every array handed to BLAS the rejecting guard equals offset + reference footprint in every case (not weaker, not stronger), offsets rejected when negative, leading dimensions checked; complex dot products composed correctly. It does NOT decide the numerical result of the BLAS routine.",
+    note="Trusted: clang 14, the reference footprint table sa/kb_blas.py (netlib BLAS definitions), the abstract execution in sa/cmodel.py. Linux build configuration. Integer overflow inside guard arithmetic is outside this check.",
+    ref="DESIGN.md section 3, C17"),
  "C13": dict(
     technique="static analysis: derived-state completeness rules over op's mutators (sibling-arm agreement of the insert-or-create idiom, delete-inside-loop, reaching definitions for loop variables), fresh-return rule for accessors, effect ordering in delconstraint",
     text="Static, exhaustive over the methods of modeling.op that edit objective/_inequalities/_equalities: every insert-or-create site of the derived table _variables has both arms, touches the list matching the constraint type and creates well-formed entries; entries are deleted per variable inside the loop and only when 'o','i','e' are all empty; an objective change clears 'o' on survivors and sets it on the new objective's variables; accessors return fresh lists; delconstraint removes from the source list first, under try/except ValueError; no loop variable is read after its loop. It does NOT decide equality of solve results with a freshly built op.",
